@@ -448,6 +448,17 @@ static void explore(const Case &c, const Out &o, int K) {
   } else if (n >= 2) {
     // x = k*period + r, r in remainder range, k in factor range; sample a few k
     long double P = p.periodLength;
+    // cover: when the remainder range spans a whole period, every requested x must be k*P + r with k, r in range
+    if ((long double)p.periodRemainderRange.ub - p.periodRemainderRange.lb >= P * (1 - 1e-12L)) {
+      for (long double x : {(long double)p.grDomOut.lbx, (long double)p.grDomOut.ubx, ((long double)p.grDomOut.lbx + p.grDomOut.ubx) / 2}) {
+        bool cov = false;
+        long double k0 = floorl((x - p.periodRemainderRange.lb) / P);
+        for (long double k = k0 - 1; k <= k0 + 1; k += 1)
+          if (k >= p.periodicFactorRange.lb && k <= p.periodicFactorRange.ub &&
+              x - k * P >= p.periodRemainderRange.lb - 1e-9L && x - k * P <= p.periodRemainderRange.ub + 1e-9L) cov = true;
+        if (!cov) { std::printf("E %d 1e9 period-uncovered %.17Lg 0 0 0 period-uncovered\n", c.id, x); return; }
+      }
+    }
     double ks[5] = {p.periodicFactorRange.lb, p.periodicFactorRange.ub, 0.0,
                     std::floor((p.periodicFactorRange.lb + p.periodicFactorRange.ub) / 2), 1.0};
     for (double k : ks) {
